@@ -62,6 +62,7 @@ type fsm12 struct {
 	cfg                *dtlsconfig.HandshakeConfig
 	closed             chan struct{}
 	establishment      *Establishment
+	cacheRepeats       int // retransmitted messages in the cache when the flight was last sent
 }
 
 func NewFSM12(
@@ -158,6 +159,7 @@ func (s *fsm12) send(ctx context.Context, c Conn) (State, error) {
 	if _, err := c.WritePackets(ctx, s.flights); err != nil {
 		return StateErrored, err
 	}
+	s.cacheRepeats = s.cache.Repeats()
 
 	if s.currentFlight.IsLastSendFlight() {
 		return StateFinished, nil
@@ -205,6 +207,14 @@ func (s *fsm12) wait(ctx context.Context, conn Conn) (State, error) { //nolint:g
 			}
 			if nextFlight == 0 {
 				break
+			}
+			if s.currentFlight == dtlsflight12.Flight2 && nextFlight == dtlsflight12.Flight2 {
+				// The HelloVerifyRequest is repeated when the client repeats its
+				// first ClientHello, and only then: any other handshake message
+				// from the unverified address gets no answer.
+				if !state.IsRetransmit && s.cache.Repeats() == s.cacheRepeats {
+					break
+				}
 			}
 			s.cfg.Log.Tracef(
 				"[handshake:%s] %s -> %s",
